@@ -31,15 +31,15 @@ import (
 type Case struct {
 	FEN    string   `json:"fen"`
 	Moves  []string `json:"moves,omitempty"`
-	TT     int      `json:"tt"`               // table size in bytes
-	Depth  int      `json:"depth"`            // 0 = no depth limit given
-	Nodes  int      `json:"nodes"`            // -1 = none (hard budget = abort point)
-	Soft   int      `json:"soft"`             // soft node limit, 0 = none
-	Stop   string   `json:"stop,omitempty"`   // "", "before", "info:<j>" (closed from inside the j-th info line), "timer:<us>"
-	Warm   []Case   `json:"warm,omitempty"`   // searches run before on the same engine (tables carry over)
+	TT     int      `json:"tt"`                // table size in bytes
+	Depth  int      `json:"depth"`             // 0 = no depth limit given
+	Nodes  int      `json:"nodes"`             // -1 = none (hard budget = abort point)
+	Soft   int      `json:"soft"`              // soft node limit, 0 = none
+	Stop   string   `json:"stop,omitempty"`    // "", "before", "info:<j>" (closed from inside the j-th info line), "timer:<us>"
+	Warm   []Case   `json:"warm,omitempty"`    // searches run before on the same engine (tables carry over)
 	SweepK int      `json:"sweep_k,omitempty"` // abort sweep: the request is repeated with every hard node budget 0..SweepK
-	Params []string `json:"params,omitempty"` // spsa build only: name=value settings
-	GoArgs string   `json:"go,omitempty"`     // UCI leg: arguments of the go command
+	Params []string `json:"params,omitempty"`  // spsa build only: name=value settings
+	GoArgs string   `json:"go,omitempty"`      // UCI leg: arguments of the go command
 }
 
 var ttSizes = []int{32, 64, 3200, 32 * 1024, 1 << 20}
